@@ -18,6 +18,7 @@ import AutomataVerif.Proofs.PyShape
 import AutomataVerif.Proofs.ExpandValid
 import AutomataVerif.Proofs.Rename
 import AutomataVerif.Proofs.Complete
+import AutomataVerif.Proofs.Partial
 
 namespace AV.Props.C04
 open AV AV.DFA
@@ -279,5 +280,42 @@ example : (match exA.complementFull 2 with
 example : (match exA.complementFull 2 with
            | .ok R => R.validate
            | .error e => .error e) = .ok () := by rfl
+
+/-! ## 5. `to_partial(minify=False)` -/
+
+/-- **`to_partial(minify=False)` keeps the language.**  For a valid duplicate-free `d` the
+result (dead and trap states removed, except the initial state, with all edges into them)
+is a valid partial DFA, duplicate-free, over the same alphabet, with the verdict of `d` on
+every word. -/
+theorem C04_to_partial (d : AV.DFA σ α) (hd : d.validate = .ok ()) (pd : d.PyShape) :
+    d.toPartialPlain.validate = .ok () ∧ d.toPartialPlain.PyShape ∧
+      d.toPartialPlain.syms = d.syms ∧ d.toPartialPlain.allowPartial = true ∧
+      ∀ w, d.toPartialPlain.accepts w = d.accepts w := by
+  have wf := (DFA.validate_eq_ok d).mp hd
+  exact ⟨(DFA.validate_eq_ok _).mpr (toPartialPlain_wf wf pd), toPartialPlain_pyShape wf pd, rfl, rfl,
+    toPartialPlain_accepts wf pd⟩
+
+/-- Every state kept by `to_partial` other than the initial one is reachable and can reach
+a final state (nothing dead is left). -/
+theorem C04_to_partial_trim (d : AV.DFA σ α) (hd : d.validate = .ok ()) :
+    ∀ q ∈ d.toPartialPlain.states, q = d.init ∨
+      (Reach d.succStates d.init q ∧ ∃ f ∈ d.finals, Reach d.predStates f q) := by
+  have wf := (DFA.validate_eq_ok d).mp hd
+  intro q hq
+  rcases mem_partialStates.mp hq with h | ⟨h1, h2⟩
+  · exact Or.inl h
+  · exact Or.inr ⟨(mem_accessible_iff wf).mp h1, (mem_coaccessible_iff wf).mp h2⟩
+
+/-- A complete DFA with a trap state `2` and an unreachable state `3`. -/
+def exC : AV.DFA Nat Nat :=
+  { states := [0, 1, 2, 3], syms := [0, 1],
+    trans := [(0, [(0, 1), (1, 2)]), (1, [(0, 0), (1, 2)]), (2, [(0, 2), (1, 2)]), (3, [(0, 0), (1, 3)])],
+    init := 0, finals := [1], allowPartial := false }
+
+example : exC.validate = .ok () := by rfl
+example : (exC.toPartialPlain.states, exC.toPartialPlain.trans, exC.toPartialPlain.accepts [0, 0, 0],
+    exC.accepts [0, 0, 0], exC.toPartialPlain.accepts [0, 1]) =
+    ([0, 1], [(0, [(0, 1)]), (1, [(0, 0)])], true, true, false) := by decide
+example : exC.toPartialPlain.validate = .ok () := by rfl
 
 end AV.Props.C04
